@@ -20,6 +20,7 @@
 
 #include <atomic>
 #include <chrono>
+#include <cstdlib>
 #include <map>
 #include <memory>
 #include <mutex>
@@ -823,6 +824,10 @@ int main(int argc, char** argv)
     int size = std::atoi(argv[4]);
     g_noexcept_yield = prog == "yieldintr";
     e2::g_wanted = &want;
+    // diagnosis aid (mutation trials): with VERIF_JOIN_TERMHANDLER set, destroying a joinable pika::thread calls this
+    // handler instead of std::terminate, so the run continues and the log shows where the model and the code part
+    if (std::getenv("VERIF_JOIN_TERMHANDLER"))
+        pika::set_thread_termination_handler([](std::exception_ptr const&) { monitor("termination handler called: a joinable pika::thread was destroyed"); });
     e2::g_max_records = 400000;    // a bounded program cannot produce more: beyond that = livelock
     e2::install(seed, perturb);
 
